@@ -305,7 +305,7 @@ def init_rules(model, R):
         R.bad('GUARD', func, func.node, 'guards test the right collections', 'atoms among ' + ', '.join(spec_atoms), 'stray: ' + ', '.join(stray))
     reject = guards.Formula(lambda e: any(f(e) for f in formulas), used, ' or '.join(f'[{f.text}]' for f in formulas))
     diff = guards.equivalent(reject, lambda e: any(e[a] for a in spec_atoms), spec_atoms)
-    R.check(diff is None, 'GUARD', func, func.node, 'reject iff any of the seven ill-formedness conditions',
+    R.decided(diff is None, 'GUARD', func, func.node, 'reject iff any of the seven ill-formedness conditions',
             ' or '.join(spec_atoms), reject.text[:300], extra={'differs_at': diff})
     for a in spec_atoms:
         R.check(a in used, 'GUARD', func, func.node, f'condition {a} is tested', a, 'tested: ' + ', '.join(used))
@@ -433,7 +433,7 @@ def fromdict_rules(model, R):
     def spec(e):
         return (e[spec_atoms[0]] or e[spec_atoms[1]] or e[spec_atoms[2]] or (not e[spec_atoms[3]] and e[spec_atoms[4]]))
     diff = guards.equivalent(reject, spec, spec_atoms)
-    R.check(diff is None, 'GUARD', func, func.node, 'reject iff non-string names, row/object count mismatch, or a present-but-empty lattice',
+    R.decided(diff is None, 'GUARD', func, func.node, 'reject iff non-string names, row/object count mismatch, or a present-but-empty lattice',
             f'{spec_atoms[0]} or {spec_atoms[1]} or {spec_atoms[2]} or (not {spec_atoms[3]} and {spec_atoms[4]})', reject.text[:300],
             extra={'differs_at': diff})
     for a in spec_atoms[:3] + spec_atoms[4:]:
@@ -502,7 +502,7 @@ def fromdict_rules(model, R):
                 return e[dup] or out
             atoms = [dup] + ([sub] if not (maxge or minneg in used) else [empty, mg, minneg])
             diff = guards.equivalent(rej, spec, atoms, constraint=constraint)
-            R.check(diff is None and res is not None, 'GUARD', make_set, make_set.node,
+            R.decided(diff is None and res is not None, 'GUARD', make_set, make_set.node,
                     'row rejected iff repeated or out-of-range column index', 'len(set(r)) != len(r) or not set(r) <= range(len(properties))',
                     rej.text, extra={'differs_at': diff, 'reading': 'MinNeg = a negative index, MaxGE = an index >= the column count'} if diff else None)
             if maxge:
